@@ -7,7 +7,7 @@ identifier bookkeeping after the `repo_fixes/C10-*.diff` patches).  Definitions 
 
 A *container* is a glyph or the font (`World.conts`); `g.reg` is its `identifiers` set,
 `g.carried` the identifiers read off the contours, points, components, anchors and guidelines that
-are in it.  `run {} ops` is the world after the operation sequence `ops` (any of the 53 kinds of
+are in it.  `run {} ops` is the world after the operation sequence `ops` (any of the 60 kinds of
 operation of `Ident.Op`, any arguments, any length).
 -/
 import DefconModel.Lemmas.IdentLeak
@@ -354,6 +354,64 @@ example : (step (run {} [.insAnchor 0 0 (some 1) true]) (.insContour 0 0 ⟨some
     = .err .assertion := by decide
 example : (step (run {} [.insAnchor 0 0 (some 1) true, .insGuide 0 0 none false]) (.setGuideId 0 0 (some 1))).2
     = .err .assertion := by decide
+
+/-! ## 3b. Refused calls: nothing is freed, nothing is registered -/
+
+/-- `refused_unchanged`: a call the container has to refuse — `removePoint` / `removeContour` /
+`removeComponent` / `removeAnchor` / `removeGuideline` with an object that is not in the container
+(a point of a sibling contour, the Point object that `reverse()` replaced, an object that was removed
+before, an object of another glyph), or the insertion of an anchor / guideline dict whose colour is
+not a colour — answers with an error and leaves the whole world exactly as it was: no identifier is
+freed although the stranger carries it, none is registered although the dict names one. -/
+theorem refused_unchanged (w : World) (op : Op) (h : Op.refused op = true) :
+    (step w op).1 = w ∧ ∃ e, (step w op).2 = .err e := by
+  cases op <;> simp only [Op.refused] at h <;> try (exact absurd h (by decide))
+  case insAnchorBad t r v => exact ⟨rfl, _, rfl⟩
+  case insGuideBad t r v => exact ⟨rfl, _, rfl⟩
+  all_goals
+    simp only [step]
+    repeat' split
+  all_goals exact ⟨rfl, _, rfl⟩
+
+/-- … and the error is the one Python raises: ValueError from `list.remove` for a point that is not in
+the contour the call names (whenever the glyph has a contour at all). -/
+theorem rmAbsentPoint_valueError (w : World) (t rc : Nat) (h : (w.get t).contours ≠ []) :
+    step w (.rmAbsentPoint t rc) = (w, .err .value) := by
+  simp only [step, pick]
+  have : (w.get t).contours.length ≠ 0 := fun h0 => h (List.length_eq_zero_iff.mp h0)
+  simp [this]
+
+/-- An assignment `glyph.anchors = [...]` / `container.guidelines = [...]` of dicts that is cut short by
+a dict with an invalid colour leaves exactly the world the assignment of the valid dicts before it
+leaves (so the invariant and exactness theorems above apply to it), and does not answer "ok". -/
+theorem setDictsBad_as_valid_prefix (w : World) (t : Nat) (vs : List (Option Id)) :
+    (step w (.setAnchorsBad t vs)).1 = (step w (.setAnchors t vs)).1 ∧
+    (step w (.setAnchorsBad t vs)).2 ≠ .ok ∧
+    (step w (.setGuidesBad t vs)).1 = (step w (.setGuides t vs)).1 ∧
+    (step w (.setGuidesBad t vs)).2 ≠ .ok := by
+  refine ⟨rfl, ?_, rfl, ?_⟩
+  · simp only [step]
+    split
+    · intro hh; cases hh
+    · rename_i hne; exact fun hh => hne (by rw [hh])
+  · simp only [step]
+    split
+    · intro hh; cases hh
+    · rename_i hne; exact fun hh => hne (by rw [hh])
+
+-- non-vacuity: the Point object kept from before `reverse()` is refused, identifier 3 stays registered
+-- (the reversed contour's new point carries it), so an anchor with identifier 3 is still rejected
+example : (step (run {} [.insContour 0 0 ⟨some 1, [⟨.line, some 2⟩, ⟨.line, some 3⟩, ⟨.line, some 4⟩]⟩,
+    .reverse 0 0]) (.rmAbsentPoint 0 0)).2 = .err .value := by decide
+example : (step (run {} [.insContour 0 0 ⟨some 1, [⟨.line, some 2⟩, ⟨.line, some 3⟩, ⟨.line, some 4⟩]⟩,
+    .reverse 0 0, .rmAbsentPoint 0 0]) (.insAnchor 0 0 (some 3) true)).2 = .err .assertion := by decide
+-- an anchor of glyph 1 handed to glyph 0's removeAnchor; a rejected dict; a cut-short assignment
+example : (step (run {} [.insAnchor 1 0 (some 1) true, .insAnchor 0 0 (some 1) false])
+    (.rmForeign 2 0 1 0)).2 = .err .value := by decide
+example : ((run {} [.insAnchor 0 0 (some 1) true, .insAnchorBad 0 1 (some 2), .setAnchorsBad 0 [some 3, none]]).get 0).reg
+    = [3] := by decide
+example : Clean {} [.insAnchor 0 0 (some 1) true, .insAnchorBad 0 1 (some 2), .rmAbsent 2 0 0,
+    .setGuidesBad 3 [some 3]] := by decide
 
 /-! ## 4. `generated_fresh` : generated identifiers are new -/
 
